@@ -530,3 +530,35 @@ TWINS += [
 MUTANTS += [
     {"name": "r3-predicate-table-misses-dotdot", "expect": "R14.1", "edits": [(S, _R3_BODY, '    parts = [directory or "."]\n    checks = (os.path.isabs, lambda n: n.startswith("/"), lambda n: n.startswith("../"))\n    for filename in pathnames:\n        if filename != "":\n            filename = posixpath.normpath(filename)\n        if any(sep in filename for sep in _os_alt_seps) or any(check(filename) for check in checks):\n            return None\n        parts.append(filename)\n    return posixpath.join(*parts)\n')]},
 ]
+
+# ---- R14.5: which directory the check contains the result in (the base of safe_join, nothing narrower)
+_SFD_FULL = '    path_str = safe_join(os.fspath(directory), os.fspath(path))\n\n    if path_str is None:\n        raise NotFound()\n\n    # Flask will pass app.root_path, allowing its send_from_directory\n    # wrapper to not have to deal with paths.\n    if "_root_path" in kwargs:\n        path_str = os.path.join(kwargs["_root_path"], path_str)\n\n    if not os.path.isfile(path_str):\n        raise NotFound()\n\n    return send_file(path_str, environ, **kwargs)\n'
+_SFD_TAIL = '\n    if path_str is None:\n        raise NotFound()\n\n    if not os.path.isfile(path_str):\n        raise NotFound()\n\n    return send_file(path_str, environ, **kwargs)\n'
+_DL_JOIN = "                path = safe_join(directory, path)\n"
+_PL_JOIN = "            path = safe_join(package_path, path)\n"
+
+MUTANTS += [
+    # the directory is joined to the request path first, the root becomes the base: '..' consumes the directory name
+    {"name": "r5-directory-joined-into-component-two-calls", "expect": "R14.5", "edits": [(U, _SFD_FULL, '    rel = os.fspath(path)\n\n    if "_root_path" in kwargs:\n        path_str = safe_join(kwargs["_root_path"], os.path.join(os.fspath(directory), rel))\n    else:\n        path_str = safe_join(os.fspath(directory), rel)\n' + _SFD_TAIL)]},
+    {"name": "r5-directory-formatted-into-component", "expect": "R14.5", "edits": [(U, _SFD_FULL, '    root = kwargs.get("_root_path")\n    wanted = f"{os.fspath(directory)}/{os.fspath(path)}" if root is not None else os.fspath(path)\n    path_str = safe_join(root if root is not None else os.fspath(directory), wanted)\n' + _SFD_TAIL)]},
+    {"name": "r5-directory-in-pieces-list-joined-before-check", "expect": "R14.5", "edits": [(U, _SFD_FULL, '    pieces = [os.fspath(directory)]\n    pieces.append(os.fspath(path))\n    path_str = safe_join(kwargs.get("_root_path", "."), "/".join(pieces))\n' + _SFD_TAIL)]},
+    {"name": "r5-directory-grown-in-place-with-request-path", "expect": "R14.5", "edits": [(U, _SFD_FULL, '    wanted = os.fspath(directory)\n    wanted += "/" + os.fspath(path)\n    path_str = safe_join(kwargs.get("_root_path", ""), wanted)\n' + _SFD_TAIL)]},
+    # the mixing happens in the caller of a followed helper
+    {"name": "r5-helper-receives-directory-and-path-as-one-component", "expect": "R14.5", "edits": [(U, SFD_SIG, "def _below(base: str, rel: str) -> str | None:\n    return safe_join(base, rel)\n\n\n" + SFD_SIG), (U, _SFD_FULL, '    path_str = _below(kwargs.get("_root_path", "."), os.path.join(directory, path))\n' + _SFD_TAIL)]},
+    # the directory does not take part at all: contained in the root only
+    {"name": "r5-base-is-root-path-only", "expect": "R14.5", "edits": [(U, _SFD_FULL, '    if "_root_path" in kwargs:\n        directory = kwargs["_root_path"]\n\n    path_str = safe_join(os.fspath(directory), os.fspath(path))\n' + _SFD_TAIL)]},
+    # SharedDataMiddleware: the exported directory's own name moves to the untrusted side
+    {"name": "r5-directory-loader-parent-as-base", "expect": "R14.5", "edits": [(M, _DL_JOIN, "                path = safe_join(os.path.dirname(directory), os.path.basename(directory) + \"/\" + path)\n")]},
+    {"name": "r5-package-loader-path-percent-formatted", "expect": "R14.5", "edits": [(M, _PL_JOIN, '            path = safe_join("", "%s/%s" % (package_path, path))\n')]},
+]
+TWINS += [
+    # the root is joined on the base side before the check: still contained in <root>/<directory>
+    {"name": "r5-root-joined-into-base-before-check", "edits": [(U, _SFD_FULL, '    base = os.fspath(directory)\n\n    if "_root_path" in kwargs:\n        base = os.path.join(kwargs["_root_path"], base)\n\n    path_str = safe_join(base, os.fspath(path))\n' + _SFD_TAIL)]},
+    {"name": "r5-base-selected-by-conditional-expression", "edits": [(U, _SFD_FULL, '    root = kwargs.get("_root_path")\n    path_str = safe_join(os.fspath(directory) if root is None else os.path.join(root, directory), os.fspath(path))\n' + _SFD_TAIL)]},
+    # request data joined with constants only stays request data
+    {"name": "r5-request-path-joined-with-constants", "edits": [(U, "    path_str = safe_join(os.fspath(directory), os.fspath(path))\n", '    wanted = os.path.join("", os.fspath(path))\n    wanted = "".join([wanted]) + ""\n    path_str = safe_join(os.fspath(directory), wanted)\n')]},
+    {"name": "r5-containment-helper-gets-directory-as-base", "edits": [(U, SFD_SIG, "def _below(base: str, rel: str) -> str | None:\n    return safe_join(base, rel)\n\n\n" + SFD_SIG), (U, "    path_str = safe_join(os.fspath(directory), os.fspath(path))\n", "    path_str = _below(os.fspath(directory), os.fspath(path))\n")]},
+    {"name": "r5-directory-loader-base-through-local", "edits": [(M, _DL_JOIN, "                root = os.fspath(directory)\n                wanted = f\"{path}\"\n                path = safe_join(root, wanted)\n")]},
+    # a trusted name as a component of its own is checked on its own
+    {"name": "r5-package-loader-base-split-into-two-trusted-parts", "edits": [(M, _PL_JOIN, '            path = safe_join(posixpath.dirname(package_path) or ".", posixpath.basename(package_path), path)\n')]},
+]
